@@ -9,7 +9,7 @@
    open master has a known size, the destination holds exactly what precedes the outermost such master.
    PARTIAL (second part): declared paths without global placeholders, one write call per tag, a destination that accepts
    everything — the scope of [wconf]/[rconf], as in C01. *)
-From Ebml Require Import Base Tools Spec Writer Reader Pure Encode Proofs.Tactics Proofs.SpecProofs Proofs.WriterProofs Proofs.RoundTrip Proofs.WriteEnc Proofs.Nesting Proofs.Partial Proofs.Snapshots.
+From Ebml Require Import Base Tools Spec Writer Reader Pure Encode Proofs.Tactics Proofs.SpecProofs Proofs.WriterProofs Proofs.RoundTrip Proofs.WriteEnc Proofs.Nesting Proofs.Partial Proofs.Snapshots Proofs.AuditWriter.
 
 (* bytes handed to the destination are never retracted or altered: every call only appends to them, for every call,
    state, specification and destination write script *)
@@ -25,7 +25,7 @@ Proof. exact wrun_prefix. Qed.
 Theorem C10_drained : forall sp st op st', wstep sp st op = (st', WOk) -> has_known (w_open st') = false -> w_buf st' = [].
 Proof. exact wstep_drained. Qed.
 
-(* while a known-size master is open (after the call), the call handed nothing over *)
+(* while a known-size master is open (after the call), the call handed nothing over (write_raw: C10_raw_held below) *)
 Theorem C10_held : forall sp st t o st' r, write_advanced sp st t o = (st', r) -> r <> WPanic ->
   has_known (w_open st') = true -> w_dest st' = w_dest st.
 Proof. exact write_held. Qed.
@@ -34,11 +34,82 @@ Proof. exact write_held. Qed.
 Theorem C10_buffering_silent : forall sp t o st st1 r, buffer_tag sp t o st = (st1, r) -> w_dest st1 = w_dest st /\ w_script st1 = w_script st.
 Proof. exact buffer_dest. Qed.
 
-(* flush() and into_inner() close all open masters and deliver everything *)
+(* after a successful flush() / into_inner() no master is open and the working buffer is empty (what the destination has received:
+   C10_flush_bytes below) *)
 Theorem C10_flush : forall st st', flush st = (st', WOk) -> w_open st' = [] /\ w_buf st' = [].
 Proof. exact flush_closes_all. Qed.
 Theorem C10_into_inner : forall sp st st', wstep sp st OpIntoInner = (st', WOk) -> w_open st' = [] /\ w_buf st' = [].
 Proof. intros sp. exact flush_closes_all. Qed.
+
+(* ---- what exactly is delivered (byte level) *)
+
+(* the hand-over step (private_flush: dest.write_all(working_buffer.drain(..))): the working buffer is emptied whatever happens and the
+   open masters are untouched; the destination receives a prefix [del] of the buffer: the whole buffer when the step succeeds;
+   when it fails the error is an I/O error and the undelivered rest [lost] (at least one byte) is gone — it is neither in the
+   buffer nor in the destination *)
+Theorem C10_private_flush_bytes : forall st st' r, private_flush st = (st', r) ->
+  w_buf st' = [] /\ w_open st' = w_open st /\
+  exists del lost, w_buf st = del ++ lost /\ w_dest st' = w_dest st ++ del /\
+                   (r = WOk -> lost = []) /\ (r <> WOk -> lost <> [] /\ exists x, r = WErr (EIo x)).
+Proof. exact private_flush_bytes. Qed.
+
+(* in particular a successful hand-over appends exactly the working buffer to the destination *)
+Theorem C10_flush_conserves : forall st st', private_flush st = (st', WOk) -> w_dest st' = w_dest st ++ w_buf st.
+Proof. exact flush_conserves. Qed.
+
+(* a successful write()/write_advanced() after which no known-size master is open hands over exactly the working buffer as it is after
+   buffering the tag (everything held back so far and the new tag), and leaves the buffer empty *)
+Theorem C10_write_delivers : forall sp st t o st', write_advanced sp st t o = (st', WOk) -> has_known (w_open st') = false ->
+  exists st1, buffer_tag sp t o st = (st1, WOk) /\ w_open st' = w_open st1 /\ w_buf st' = [] /\ w_dest st' = w_dest st ++ w_buf st1.
+Proof. exact write_delivers. Qed.
+
+(* the same for write_raw(): the buffer, then id, size field of the default (shortest) width, payload *)
+Theorem C10_raw_delivers : forall st id data st', write_raw st id data = (st', WOk) -> has_known (w_open st') = false ->
+  exists field, size_to_vint (N.of_nat (length data)) O = Some field /\ w_open st' = w_open st /\ w_buf st' = [] /\
+                w_dest st' = w_dest st ++ w_buf st ++ id_bytes id ++ field ++ data.
+Proof. exact raw_delivers. Qed.
+
+(* write_raw() while a known-size master is open hands nothing over, whatever it returns *)
+Theorem C10_raw_held : forall st id data st' r, write_raw st id data = (st', r) -> has_known (w_open st') = true -> w_dest st' = w_dest st.
+Proof. exact raw_held. Qed.
+
+(* flush() = closing all masters: [closed_buf open buf] (Proofs/AuditWriter.v) is the working buffer after closing every open master,
+   innermost first — each known-size master gets its id and its size field (the number of bytes buffered since its start, in the
+   width it was started with) spliced in at its start, unknown-size masters need nothing.  A successful flush() appends exactly that
+   to the destination and leaves nothing open or buffered *)
+Theorem C10_flush_bytes : forall st st', flush st = (st', WOk) ->
+  exists b, closed_buf (w_open st) (w_buf st) = Some b /\ w_dest st' = w_dest st ++ b /\ w_open st' = [] /\ w_buf st' = [].
+Proof. exact flush_bytes. Qed.
+Theorem C10_into_inner_bytes : forall sp st st', wstep sp st OpIntoInner = (st', WOk) ->
+  exists b, closed_buf (w_open st) (w_buf st) = Some b /\ w_dest st' = w_dest st ++ b /\ w_open st' = [] /\ w_buf st' = [].
+Proof. intros sp. exact flush_bytes. Qed.
+
+(* a failing flush()/into_inner(): either some master's content does not fit the size width it was started with — then the state is
+   unchanged (nothing delivered, nothing closed; fix D26); or the destination fails — then every master has been closed, the buffer
+   has been emptied and only a proper prefix [del] of the closed buffer has reached the destination: the rest is lost *)
+Theorem C10_flush_failure : forall st st' e, flush st = (st', WErr e) ->
+  (e = ESize /\ st' = st) \/
+  (exists x, e = EIo x /\ w_open st' = [] /\ w_buf st' = [] /\
+     exists b del lost, closed_buf (w_open st) (w_buf st) = Some b /\ b = del ++ lost /\ lost <> [] /\ w_dest st' = w_dest st ++ del).
+Proof. exact flush_failure. Qed.
+
+(* unknown-size Root (9 header bytes delivered at once), known-size Parent and a 1-byte binary element held back (4 bytes in the buffer):
+   closing Parent splices its id and 1-byte size (65 3, 132) in front of them, and flush() delivers exactly these 8 bytes *)
+Example C10_ex_flush_bytes :
+  let u := {| o_len := None; o_unknown := true |} in
+  let st := fst (wrun aw_sp (w_init []) [OpWrite (TStart 129) u; OpWrite (TStart 16643) o_default; OpWrite (TElem 16642 (VB [7])) o_default]) in
+  w_buf st = [65; 2; 129; 7] /\ closed_buf (w_open st) (w_buf st) = Some [65; 3; 132; 65; 2; 129; 7] /\
+  w_dest (fst (flush st)) = w_dest st ++ [65; 3; 132; 65; 2; 129; 7] /\ snd (flush st) = WOk.
+Proof. vm_compute. repeat split; reflexivity. Qed.
+
+(* an I/O failure during a streaming write: the destination takes 2 bytes, then fails; the 9 header bytes have left the buffer, 2 were
+   delivered, 7 are lost, and the master counts as open *)
+Example C10_ex_io_loss :
+  let u := {| o_len := None; o_unknown := true |} in
+  let st := fst (wstep aw_sp (w_init [WAcc 2; WFail 5]) (OpWrite (TStart 129) u)) in
+  snd (wstep aw_sp (w_init [WAcc 2; WFail 5]) (OpWrite (TStart 129) u)) = WErr (EIo (IoCode 5)) /\
+  w_dest st = [129; 1] /\ w_buf st = [] /\ open_ids (w_open st) = [129].
+Proof. exact io_loss_example. Qed.
 
 Example C10_ex :
   let sp := [ {| e_id := 129; e_ty := DMaster; e_path := [] |}; {| e_id := 16643; e_ty := DMaster; e_path := [PId 129] |};
